@@ -174,9 +174,6 @@ func runC06(res *lib.Result, tier string, seed int64, args []string) error {
 				case strings.ContainsAny(o.class, "IR"):
 					res.HitKnown("C06-K1", "find-references started on a position where go-to-definition resolves to the wrong variable (classes C05-K1 / C05-K2) returns that other variable's occurrences", caseText)
 					res.Dist("hit.C06-K1")
-				case traversalDiffers(occs, o.name):
-					res.HitKnown("C06-K2", "in 'local a, b = e1, e2' the traversal inserts a before e2 is analysed, so an occurrence of a inside e2 is attributed to the new a (and missing from the outer variable's references)", caseText)
-					res.Dist("hit.C06-K2")
 				default:
 					res.AddViolation("impl-vs-spec", fmt.Sprintf("references answer [%s] but the occurrences Lua binds to the same declaration are [%s] (no finding class applies)", is, ss), caseText, false)
 				}
